@@ -10,6 +10,8 @@ for m in sorted(glob.glob(os.path.join(os.path.dirname(__file__), '..', 'seeded'
         first = '**missed**'
     elif det.startswith('barely'):
         first = 'barely (1 case)'
+    elif det.startswith('tested only after'):
+        first = 'not known'
     now = det.split('now ')[-1] if 'now ' in det else det
     now = now.replace('./check ', '').replace('|', '/')
     def short(s, n):
